@@ -81,33 +81,11 @@ theorem dunder_vec_ret (op refl x y z w v) (h : dunder op refl (.vec x y z) w = 
     | none => simp [hc] at h
     | some u => simp [hc] at h; subst h; exact vecCall_isVec _ _ _ _ _ _ _ hc
 
-theorem dunder_num_num (op refl p q) :
-    dunder op refl (.num p) (.num q) = ofOpt ((if refl then numBin op q p else numBin op p q).map .num) := by
-  simp [dunder, hasDunder]
-
-theorem sampleBin_num_num (op refl p q) :
-    sampleBin op refl (.num p) (.num q) = (if refl then numBin op q p else numBin op p q).map .num := by
-  unfold sampleBin
-  rw [dunder_num_num]
-  cases (if refl then numBin op q p else numBin op p q) <;> simp [ofOpt]
-
-theorem sampleBin_num_isNum (op refl p q v) (h : sampleBin op refl (.num p) (.num q) = some v) : v.isNum = true := by
-  rw [sampleBin_num_num] at h
-  cases refl <;> simp only [if_true, if_false, Bool.false_eq_true] at h <;> exact numBin_isNum _ _ _ _ h
-
-theorem sampleBin_vec_isVec (op refl x y z w v) (h : sampleBin op refl (.vec x y z) w = some v) : v.isVec = true := by
-  unfold sampleBin at h
-  cases hd : dunder op refl (.vec x y z) w with
-  | ret u => simp [hd] at h; subst h; exact dunder_vec_ret _ _ _ _ _ _ _ hd
-  | noAttr => simp [hd] at h
-  | raise => simp [hd] at h
-  | notImpl =>
-    exfalso
-    unfold dunder at hd
-    split at hd
-    · simp at hd
-    · cases hc : vecCall op refl x y z w <;> simp [hc, ofOpt] at hd
-
+theorem callDunder_vec_isVec (op refl x y z w v) (h : callDunder op refl (.vec x y z) w = some v) : v.isVec = true := by
+  unfold callDunder at h
+  cases hd : dunder op refl (.vec x y z) w <;> simp [hd] at h
+  subst h
+  exact dunder_vec_ret _ _ _ _ _ _ _ hd
 
 /-- the static type recorded for a node is sound for its sampled value -/
 theorem vty_sound (T : Tables) (env : Env) : ∀ (n : Node) (v : Val), evalNode T env n = some v →
@@ -140,19 +118,15 @@ theorem vty_sound (T : Tables) (env : Env) : ∀ (n : Node) (v : Val), evalNode 
             split at ht <;> (try split at ht) <;> simp_all
           obtain ⟨p, rfl⟩ := (isNum_iff a).mp (iha.1 hty.1)
           obtain ⟨q, rfl⟩ := (isNum_iff b).mp (ihb.1 hty.2)
-          split at h
-          · split at h <;> exact pyBin_num_isNum _ _ _ _ h
-          · exact sampleBin_num_isNum _ _ _ _ _ h
+          split at h <;> exact pyBin_num_isNum _ _ _ _ h
         · intro ht
           have hty : obj.vty = .vector := by
             simp only [Node.vty, inferBin] at ht
             split at ht <;> simp_all
           obtain ⟨x, y, z, rfl⟩ := (isVec_iff a).mp (iha.2 hty)
           split at h
-          · split at h
-            · exact pyBin_vec_right_isVec _ _ _ _ _ _ h
-            · exact pyBin_vec_left_isVec _ _ _ _ _ _ h
-          · exact sampleBin_vec_isVec _ _ _ _ _ _ _ h
+          · exact pyBin_vec_right_isVec _ _ _ _ _ _ h
+          · exact pyBin_vec_left_isVec _ _ _ _ _ _ h
   | .opd1 op obj, v, h => by
     simp only [evalNode] at h
     cases ha : evalNode T env obj with
@@ -229,9 +203,7 @@ theorem vty_sound (T : Tables) (env : Env) : ∀ (n : Node) (v : Val), evalNode 
             · rename_i hh; simpa using hh
             · simp at ht
           obtain ⟨x, y, z, rfl⟩ := (isVec_iff a).mp (iha.2 hty)
-          cases hd : dunder op refl (.vec x y z) b <;> simp [hd] at h
-          subst h
-          exact dunder_vec_ret _ _ _ _ _ _ _ hd
+          exact callDunder_vec_isVec _ _ _ _ _ _ _ h
   | .vmeth op refl x y z arg, v, h => by
     simp only [evalNode] at h
     cases hb : evalNode T env arg with
@@ -251,31 +223,7 @@ theorem vty_sound (T : Tables) (env : Env) : ∀ (n : Node) (v : Val), evalNode 
     simp [Node.vty, Val.isVec]
   | .tupd .., v, h | .rawt .., v, h | .fnd .., v, h | .fail, v, h => by simp [Node.vty]
 
-/-! ### Scenic's getattr/NotImplemented emulation vs Python's dispatch -/
-def fb (c1 c2 : Call) : Option Val :=
-  match c1 with
-  | .ret v => some v
-  | .notImpl => (match c2 with | .ret v => some v | _ => none)
-  | _ => none
-
-theorem sampleBin_eq_fb (op refl a b) : sampleBin op refl a b = fb (dunder op refl a b) (dunder op (!refl) b a) := by
-  unfold sampleBin fb; rfl
-
-@[simp] theorem fb_ofOpt (o c2) : fb (ofOpt o) c2 = o := by cases o <;> rfl
-@[simp] theorem fb_noAttr (c2) : fb .noAttr c2 = none := rfl
-@[simp] theorem fb_raise (c2) : fb .raise c2 = none := rfl
-@[simp] theorem fb_notImpl_ofOpt (o) : fb .notImpl (ofOpt o) = o := by cases o <;> rfl
-@[simp] theorem fb_notImpl_noAttr : fb .notImpl .noAttr = none := rfl
-@[simp] theorem fb_notImpl_notImpl : fb .notImpl .notImpl = none := rfl
-@[simp] theorem fb_notImpl_raise : fb .notImpl .raise = none := rfl
-
-theorem fwd_dispatch (op : BinOp) (a b : Val) (h : fwdProblem op a b = false) :
-    sampleBin op false a b = pyBin op a b := by
-  rw [sampleBin_eq_fb]
-  cases a <;> cases b <;> cases op <;>
-    simp [dunder, hasDunder, pyBin, seqBin, vecHas, fwdProblem] at h ⊢ <;>
-    (try simp [vecCall, vecMethod, vecZeroIdentity, isZeroOperand, coords3])
-
+/-! ### reflected Vector methods -/
 /-- `Vector.__rop__(v, c)` agrees with `c op v` when both are vectors -/
 theorem vecCall_comm (op : BinOp) (x y z a b c : Rat) (h : vecHas op true = true) :
     vecCall op true x y z (.vec a b c) = vecCall op false a b c (.vec x y z) := by
@@ -285,14 +233,6 @@ theorem vecCall_comm (op : BinOp) (x y z a b c : Rat) (h : vecHas op true = true
     split <;> split <;> simp_all <;> (try constructor) <;> (try ring_nf) <;> simp_all [add_comm]
   · -- sub
     intro h1 h2 h3; subst h1 h2 h3; simp
-
-theorem refl_dispatch (op : BinOp) (c x : Val) (h : reflProblem op c x = false) :
-    sampleBin op true x c = pyBin op c x := by
-  rw [sampleBin_eq_fb]
-  cases x <;> cases c <;> cases op <;>
-    simp [dunder, hasDunder, pyBin, seqBin, vecHas, reflProblem] at h ⊢ <;>
-    (try simp [vecCall, vecMethod, vecZeroIdentity, isZeroOperand, coords3]) <;>
-    (try (first | (intro h1 h2 h3; exact ⟨h1, h2, h3⟩) | (split <;> split <;> simp_all [add_comm])))
 
 /-! ### the identity simplifications; `Distribution.__op__` -/
 /-- every entry accepted by `entryOK` is an identity on numbers -/
@@ -304,13 +244,13 @@ theorem entry_sound (e : SimpEntry) (h : entryOK e = true) (x : Rat) :
 theorem WF_simp (T : Tables) (hT : T.WF = true) : ∀ e ∈ T.simp, entryOK e = true := by
   unfold Tables.WF at hT
   simp only [Bool.and_eq_true, List.all_eq_true] at hT
-  exact hT.1
+  exact hT.1.1.1.1
 
 theorem WF_vecOps (T : Tables) (hT : T.WF = true) :
     ∀ e ∈ T.vecOps, e.2.2 = vecZeroIdentity e.1 e.2.1 ∧ vecHas e.1 e.2.1 = true := by
   unfold Tables.WF at hT
   simp only [Bool.and_eq_true, List.all_eq_true, beq_iff_eq] at hT
-  exact hT.2
+  exact hT.1.1.1.2
 
 theorem simplifies_spec (T : Tables) (op : BinOp) (refl : Bool) (self arg : Node)
     (h : simplifies T op refl self arg = true) :
@@ -324,8 +264,7 @@ theorem simplifies_spec (T : Tables) (op : BinOp) (refl : Bool) (self arg : Node
     exact ⟨c, rfl, hv, e, he, h1, h2, h3⟩
   · simp at h
 
-theorem handler_eval (T : Tables) (hT : T.WF = true) (env : Env) (op : BinOp) (refl : Bool) (self arg : Node)
-    (hok : ∀ a b, evalNode T env self = some a → evalNode T env arg = some b → dispOK T refl op a b = true) :
+theorem handler_eval (T : Tables) (hT : T.WF = true) (env : Env) (op : BinOp) (refl : Bool) (self arg : Node) :
     evalNode T env (handler T op refl self arg) =
       (evalNode T env self).bind fun a => (evalNode T env arg).bind fun b =>
         if refl then pyBin op b a else pyBin op a b := by
@@ -341,21 +280,6 @@ theorem handler_eval (T : Tables) (hT : T.WF = true) (env : Env) (op : BinOp) (r
       simp only [evalNode, Option.bind_some, pyBin]
       cases hr : e.refl <;> simp [hr] at hE ⊢ <;> simp [hE]
   · simp only [evalNode, evalNode_toDist]
-    cases ha : evalNode T env self with
-    | none => simp
-    | some a =>
-      cases hb : evalNode T env arg with
-      | none => simp
-      | some b =>
-        simp only [Option.bind_some]
-        have := hok a b ha hb
-        unfold dispOK at this
-        by_cases hp : T.pythonDispatch = true
-        · simp [hp]
-        · simp [hp] at this ⊢
-          cases refl <;> simp at this ⊢
-          · exact fwd_dispatch op a b this
-          · exact refl_dispatch op b a this
 
 /-! ### operators on random vectors -/
 theorem dunder_vec (op : BinOp) (refl : Bool) (x y z : Rat) (w : Val) :
@@ -388,22 +312,19 @@ theorem pyBin_vec_right (op : BinOp) (x y z : Rat) (w : Val) :
 
 /-- sampling a VectorOperatorDistribution whose object sampled to a Vector gives what Python computes -/
 theorem vop_val (op : BinOp) (refl : Bool) (x y z : Rat) (b : Val) :
-    (match dunder op refl (.vec x y z) b with | .ret v => some v | _ => none) =
+    callDunder op refl (.vec x y z) b =
       (if refl then pyBin op b (.vec x y z) else pyBin op (.vec x y z) b) := by
+  unfold callDunder
   rw [dunder_vec]
   cases refl
   · simp only [Bool.false_eq_true, if_false, pyBin_vec_left]
     cases h : vecHas op false
     · simp [vecCall_no_method op false x y z b h]
-    · simp [callval_ofOpt]
+    · simp only [if_true]; exact callval_ofOpt _
   · simp only [if_true, pyBin_vec_right]
     cases h : vecHas op true
     · simp
-    · simp [callval_ofOpt]
-
-theorem dispOK_vec (T : Tables) (refl : Bool) (op : BinOp) (x y z : Rat) (b : Val) :
-    dispOK T refl op (.vec x y z) b = true := by
-  cases refl <;> simp [dispOK, fwdProblem, reflProblem]
+    · simp only [if_true]; exact callval_ofOpt _
 
 theorem vecOpsLookup_spec (T : Tables) (hT : T.WF = true) (op : BinOp) (refl zi : Bool)
     (h : vecOpsLookup T op refl = some zi) : zi = vecZeroIdentity op refl ∧ vecHas op refl = true := by
@@ -442,71 +363,7 @@ theorem eval_vop_of_vec (T : Tables) (env : Env) (op : BinOp) (refl : Bool) (sel
     | none => simp
     | some b =>
       simp only [Option.bind_some]
-      have h := vop_val op refl x y z b
-      cases hd : dunder op refl (.vec x y z) b <;> simp only [hd] at h ⊢ <;> exact h
-
-theorem vhandler_eval (T : Tables) (hT : T.WF = true) (env : Env) (op : BinOp) (refl : Bool) (self arg : Node)
-    (hvec : ∀ a, evalNode T env self = some a → a.isVec = true)
-    (hok : vhOK T op refl arg = true) :
-    evalNode T env (vhandler T op refl self arg) =
-      (evalNode T env self).bind fun a => (evalNode T env arg).bind fun b =>
-        if refl then pyBin op b a else pyBin op a b := by
-  unfold vhandler
-  cases hl : vecOpsLookup T op refl with
-  | none =>
-    simp only []
-    apply handler_eval T hT
-    intro a b ha _
-    obtain ⟨x, y, z, rfl⟩ := (isVec_iff a).mp (hvec a ha)
-    exact dispOK_vec T refl op x y z b
-  | some zi =>
-    have hok2 : (!(zi && !arg.isLazy) || vhZeroArgOK T arg) = true := by
-      unfold vhOK at hok
-      rw [hl] at hok
-      simp only [Option.all_some, Bool.and_eq_true] at hok
-      exact hok.2
-    obtain ⟨hzi, _⟩ := vecOpsLookup_spec T hT op refl zi hl
-    show evalNode T env (if (zi && !arg.isLazy) = true then _ else _) = _
-    by_cases hc : (zi && !arg.isLazy) = true
-    · rw [if_pos hc]
-      have hok' : vhZeroArgOK T arg = true := by
-        rw [hc] at hok2; simpa using hok2
-      have hz : vecZeroIdentity op refl = true := by
-        rw [← hzi]; simp only [Bool.and_eq_true] at hc; exact hc.1
-      cases arg with
-      | const v =>
-        simp only [vhZeroArgOK] at hok'
-        simp only []
-        by_cases hacc : T.vecHandlerAcceptsSeq = true
-        · rw [if_pos hacc]
-          by_cases hv : isZeroOperand v = true
-          · rw [if_pos hv]
-            cases ha : evalNode T env self with
-            | none => simp
-            | some a =>
-              obtain ⟨x, y, z, rfl⟩ := (isVec_iff a).mp (hvec a ha)
-              simp [evalNode, zero_identity_val op refl x y z v hz hv]
-          · rw [if_neg hv]
-            exact eval_vop_of_vec T env op refl self _ hvec
-        · rw [if_neg hacc]
-          simp only [Bool.not_eq_true] at hacc
-          simp only [hacc, Bool.false_or] at hok'
-          cases hz3 : isZero3 v with
-          | none => simp [hz3] at hok'
-          | some bz =>
-            cases bz
-            · exact eval_vop_of_vec T env op refl self _ hvec
-            · have hv : isZeroOperand v = true := by
-                cases v <;> simp [isZero3] at hz3
-                simpa [isZeroOperand] using hz3
-              cases ha : evalNode T env self with
-              | none => simp
-              | some a =>
-                obtain ⟨x, y, z, rfl⟩ := (isVec_iff a).mp (hvec a ha)
-                simp [evalNode, zero_identity_val op refl x y z v hz hv]
-      | _ => simp [vhZeroArgOK] at hok'
-    · rw [if_neg hc]
-      exact eval_vop_of_vec T env op refl self arg hvec
+      exact vop_val op refl x y z b
 
 theorem pyBin_mul_vec_comm (x y z : Rat) (b : Val) : pyBin .mul (.vec x y z) b = pyBin .mul b (.vec x y z) := by
   rw [pyBin_vec_left, pyBin_vec_right]
@@ -559,223 +416,6 @@ theorem vecCall_eq_method (op : BinOp) (refl : Bool) (x y z : Rat) (b : Val) (h 
       | str s => simp [isZeroOperand] at hb
     cases op <;> cases refl <;> simp [vecZeroIdentity] at hz <;> simp [vecMethod, hco]
   · rw [if_neg hc]
-
-theorem eval_vop_core (T : Tables) (env : Env) (op : BinOp) (refl : Bool) (self arg : Node)
-    (hvec : ∀ a, evalNode T env self = some a → a.isVec = true) :
-    evalNode T env (.vop op refl self arg) =
-      (evalNode T env self).bind fun a => (evalNode T env arg).bind fun b =>
-        if refl then pyBin op b a else pyBin op a b := eval_vop_of_vec T env op refl self arg hvec
-
-theorem vecHelperCore_eval (T : Tables) (hT : T.WF = true) (env : Env) (op : BinOp) (refl : Bool) (self arg : Node)
-    (hvec : ∀ a, evalNode T env self = some a → a.isVec = true)
-    (hok : vecCoreOK T env op refl self arg = true) :
-    evalNode T env (vecHelperCore T op refl self arg) =
-      (evalNode T env self).bind fun a => (evalNode T env arg).bind fun b =>
-        if refl then pyBin op b a else pyBin op a b := by
-  unfold vecHelperCore
-  unfold vecCoreOK at hok
-  by_cases hh : vecHas op refl = true
-  · -- Vector defines the method
-    simp only [hh, Bool.not_true, Bool.false_eq_true, if_false] at hok ⊢
-    by_cases hlazy : arg.isLazy = true
-    · simp only [hlazy, if_true] at hok ⊢
-      cases self with
-      | const c =>
-        simp only [Bool.and_eq_true, Bool.not_eq_true'] at hok
-        obtain ⟨hr, hv⟩ := hok
-        subst hr
-        cases c with
-        | vec x y z =>
-          simp only [evalNode, Option.bind_some, Bool.false_eq_true, if_false]
-          cases hb : evalNode T env arg with
-          | none => simp
-          | some b =>
-            have : shortZero b = false := by
-              simp only [valsOK, evalNode, hb, Bool.not_eq_true'] at hv; exact hv
-            simp [pyBin_vec_left, vecCall_eq_method op false x y z b this]
-        | num q => exact eval_vop_core T env op false _ arg hvec
-        | none => exact eval_vop_core T env op false _ arg hvec
-        | str s => exact eval_vop_core T env op false _ arg hvec
-        | seq k xs => exact eval_vop_core T env op false _ arg hvec
-      | _ => exact eval_vop_core T env op refl _ arg hvec
-    · simp only [hlazy, Bool.false_eq_true, if_false] at hok ⊢
-      cases arg with
-      | const v =>
-        simp only []
-        by_cases hz : (vecOpsLookup T op refl == some true && isZeroOperand v) = true
-        · rw [if_pos hz]
-          simp only [Bool.and_eq_true, beq_iff_eq] at hz
-          obtain ⟨hzi, _⟩ := vecOpsLookup_spec T hT op refl true hz.1
-          cases ha : evalNode T env self with
-          | none => simp
-          | some a =>
-            obtain ⟨x, y, z, rfl⟩ := (isVec_iff a).mp (hvec a ha)
-            simp [evalNode, zero_identity_val op refl x y z v hzi.symm hz.2]
-        · rw [if_neg hz]
-          exact eval_vop_core T env op refl self _ hvec
-      | _ => simp [Node.isConst] at hok
-  · -- Vector does not define the method
-    simp only [Bool.not_eq_true] at hh
-    simp only [hh, Bool.not_false, if_true] at hok ⊢
-    by_cases hd : (arg.isDist && !refl) = true
-    · simp only [hd, if_true, Bool.and_eq_true, Bool.not_eq_true'] at hok ⊢
-      obtain ⟨hnv, hv⟩ := hok
-      simp only [Bool.and_eq_true, Bool.not_eq_true'] at hd
-      obtain ⟨_, hr⟩ := hd
-      subst hr
-      simp only [hnv, Bool.false_eq_true, if_false]
-      rw [handler_eval T hT env op true arg self]
-      · simp only [if_true, Bool.false_eq_true, if_false]
-        exact bind_comm _ _ _
-      · intro x c hx hc
-        simp only [valsOK, hx, hc] at hv
-        exact hv
-    · simp only [hd, Bool.false_eq_true, if_false, evalNode]
-      cases ha : evalNode T env self with
-      | none => simp
-      | some a =>
-        obtain ⟨x, y, z, rfl⟩ := (isVec_iff a).mp (hvec a ha)
-        cases hb : evalNode T env arg with
-        | none => simp
-        | some b =>
-          cases refl
-          · simp [pyBin_vec_left, vecCall_no_method op false x y z b hh]
-          · simp [pyBin_vec_right, hh]
-
-theorem vecHelper_eval (T : Tables) (hT : T.WF = true) (env : Env) (op : BinOp) (refl : Bool) (self arg : Node)
-    (hvec : ∀ a, evalNode T env self = some a → a.isVec = true)
-    (hok : vecHelperOK T env op refl self arg = true) :
-    evalNode T env (vecHelper T op refl self arg) =
-      (evalNode T env self).bind fun a => (evalNode T env arg).bind fun b =>
-        if refl then pyBin op b a else pyBin op a b := by
-  unfold vecHelper
-  unfold vecHelperOK at hok
-  rw [vecHelperCore_eval T hT env op _ self arg hvec hok]
-  by_cases hm : op = .mul
-  · subst hm
-    simp only [beq_self_eq_true, if_true, Bool.false_eq_true, if_false]
-    cases ha : evalNode T env self with
-    | none => simp
-    | some a =>
-      obtain ⟨x, y, z, rfl⟩ := (isVec_iff a).mp (hvec a ha)
-      cases hb : evalNode T env arg with
-      | none => simp
-      | some b => cases refl <;> simp [pyBin_mul_vec_comm]
-  · have : (op == BinOp.mul) = false := by simpa using hm
-    simp [this]
-
-/-! ### binary operators at compile time -/
-theorem vecTyped_hvec (T : Tables) (env : Env) (n : Node) (h : n.vty = .vector) :
-    ∀ a, evalNode T env n = some a → a.isVec = true :=
-  fun a ha => (vty_sound T env n a ha).2 h
-
-theorem constLeft_eval (T : Tables) (hT : T.WF = true) (env : Env) (op : BinOp) (c : Val) (r : Node)
-    (hrc : r.isConst = false) (hrf : r.isFail = false)
-    (hok : constLeftOK T env op (.const c) r = true) :
-    evalNode T env (constLeft T op c (.const c) r) = (evalNode T env r).bind fun b => pyBin op c b := by
-  unfold constLeft
-  unfold constLeftOK at hok
-  by_cases hv : r.isVecDist = true
-  · simp only [hv, if_true, Bool.and_eq_true, beq_iff_eq] at hok ⊢
-    rw [vhandler_eval T hT env op true r (.const c) (vecTyped_hvec T env r hok.1) hok.2]
-    simp [evalNode]
-  · simp only [hv, Bool.false_eq_true, if_false] at hok ⊢
-    by_cases hd : r.isDist = true
-    · simp only [hd, if_true] at hok ⊢
-      rw [handler_eval T hT env op true r (.const c)]
-      · simp [evalNode]
-      · intro a b ha hb
-        simp only [valsOK, ha, hb] at hok
-        exact hok
-    · simp only [hd, Bool.false_eq_true, if_false] at hok ⊢
-      cases r with
-      | vecOf x y z =>
-        simp only [] at hok ⊢
-        rw [vecHelper_eval T hT env op true (.vecOf x y z) (.const c) (vecTyped_hvec T env _ rfl) hok]
-        simp [evalNode]
-      | rawt k ys => simp at hok
-      | const d => simp [Node.isConst] at hrc
-      | fail => simp [Node.isFail] at hrf
-      | _ => simp [Node.isDist] at hd
-
-theorem binGen_eval (T : Tables) (hT : T.WF = true) (env : Env) (op : BinOp) (l r : Node)
-    (hlf : l.isFail = false) (hrf : r.isFail = false) (hcc : (l.isConst && r.isConst) = false)
-    (hok : binGenOK T env op l r = true) :
-    evalNode T env (binGen T op l r) =
-      (evalNode T env l).bind fun a => (evalNode T env r).bind fun b => pyBin op a b := by
-  unfold binGen
-  unfold binGenOK at hok
-  by_cases hv : l.isVecDist = true
-  · simp only [hv, if_true, Bool.and_eq_true, beq_iff_eq] at hok ⊢
-    rw [vhandler_eval T hT env op false l r (vecTyped_hvec T env l hok.1) hok.2]
-    simp
-  · simp only [hv, Bool.false_eq_true, if_false] at hok ⊢
-    by_cases hd : l.isDist = true
-    · simp only [hd, if_true] at hok ⊢
-      rw [handler_eval T hT env op false l r]
-      · simp
-      · intro a b ha hb
-        simp only [valsOK, ha, hb] at hok
-        exact hok
-    · simp only [hd, Bool.false_eq_true, if_false] at hok ⊢
-      cases l with
-      | vecOf x y z =>
-        simp only [] at hok ⊢
-        rw [vecHelper_eval T hT env op false (.vecOf x y z) r (vecTyped_hvec T env _ rfl) hok]
-        simp
-      | const c =>
-        have hrc : r.isConst = false := by simpa [Node.isConst] using hcc
-        cases c with
-        | vec x y z =>
-          simp only [] at hok ⊢
-          rw [vecHelper_eval T hT env op false (.const (.vec x y z)) r (vecTyped_hvec T env _ rfl) hok]
-          simp
-        | str s =>
-          simp only [Bool.and_eq_true, bne_iff_ne, ne_eq] at hok ⊢
-          obtain ⟨hm, hok⟩ := hok
-          have : (op == BinOp.mod) = false := by simpa using hm
-          simp only [this, Bool.false_eq_true, if_false]
-          rw [constLeft_eval T hT env op (.str s) r hrc hrf hok]
-          simp [evalNode]
-        | num q =>
-          simp only [] at hok ⊢
-          rw [constLeft_eval T hT env op (.num q) r hrc hrf hok]
-          simp [evalNode]
-        | none =>
-          simp only [] at hok ⊢
-          rw [constLeft_eval T hT env op .none r hrc hrf hok]
-          simp [evalNode]
-        | seq k xs =>
-          simp only [] at hok ⊢
-          rw [constLeft_eval T hT env op (.seq k xs) r hrc hrf hok]
-          simp [evalNode]
-      | rawt k xs => simp at hok
-      | fail => simp [Node.isFail] at hlf
-      | _ => simp [Node.isDist] at hd
-
-theorem binBuild_eval (T : Tables) (hT : T.WF = true) (env : Env) (op : BinOp) (l r : Node)
-    (hok : binOK T env op l r = true) :
-    evalNode T env (binBuild T op l r) =
-      (evalNode T env l).bind fun a => (evalNode T env r).bind fun b => pyBin op a b := by
-  unfold binBuild
-  split
-  · simp [evalNode]
-  · simp [evalNode, bind_none_right]
-  · simp [evalNode, eval_optNode]
-  · rename_i h1 h2 h3
-    have hlf : l.isFail = false := by cases l <;> simp [Node.isFail]; exact h1 rfl
-    have hrf : r.isFail = false := by cases r <;> simp [Node.isFail]; exact h2 rfl
-    have hcc : (l.isConst && r.isConst) = false := by
-      cases l <;> cases r <;> simp [Node.isConst]
-      exact h3 _ _ rfl rfl
-    have hok' : binGenOK T env op l r = true := by
-      unfold binOK at hok
-      split at hok
-      · simp [Node.isFail] at hlf
-      · simp [Node.isFail] at hrf
-      · simp [Node.isConst] at hcc
-      · exact hok
-    exact binGen_eval T hT env op l r hlf hrf hcc hok'
 
 /-! ### unary operators, len, attribute, literals -/
 
@@ -1123,5 +763,826 @@ theorem callBuild_eval (T : Tables) (env : Env) (f : Fn) (ns : List Node) (ss : 
         have := allConst_evalArgs T env (toDistList ns) ss vs hc (by simpa using hs)
         rw [evalArgs_toDistList] at this
         simp [eval_optNode, this]
+
+
+/-! ### lists of nodes: concatenation and repetition of raw tuples -/
+
+theorem evalNodes_append (T : Tables) (env : Env) : ∀ xs ys : List Node,
+    evalNodes T env (xs ++ ys) = (evalNodes T env xs).bind fun vs => (evalNodes T env ys).map (vs ++ ·)
+  | [], ys => by cases h : evalNodes T env ys <;> simp [evalNodes, h]
+  | x :: rest, ys => by
+    simp only [List.cons_append, evalNodes, evalNodes_append T env rest ys]
+    cases evalNode T env x <;> simp
+    cases evalNodes T env rest <;> simp
+    cases evalNodes T env ys <;> simp
+
+theorem evalNodes_replicate (T : Tables) (env : Env) (xs : List Node) (vs : List Val)
+    (h : evalNodes T env xs = some vs) :
+    ∀ n : Nat, evalNodes T env (List.replicate n xs).flatten = some (List.replicate n vs).flatten
+  | 0 => by simp [evalNodes]
+  | n + 1 => by
+    simp [List.replicate_succ, evalNodes_append, h, evalNodes_replicate T env xs vs h n]
+
+theorem repeatList_nonpos {α} (i : Int) (xs : List α) (h : i ≤ 0) : repeatList i xs = [] := by
+  unfold repeatList
+  have : i.toNat = 0 := by omega
+  simp [this]
+
+theorem toDist_not_raw (n : Node) : (toDist n).isRaw = false := by
+  cases n <;> simp [toDist, Node.isRaw]
+
+theorem toDist_isFail (n : Node) : (toDist n).isFail = n.isFail := by
+  cases n <;> simp [toDist, Node.isFail]
+
+/-! ### operators on random vectors: the handlers -/
+
+theorem vhandlerCore_eval (T : Tables) (env : Env) (op : BinOp) (refl zi : Bool) (self arg : Node)
+    (hzi : zi = vecZeroIdentity op refl) (hraw : arg.isRaw = false)
+    (hvec : ∀ a, evalNode T env self = some a → a.isVec = true) :
+    evalNode T env (vhandlerCore op refl zi self arg) =
+      (evalNode T env self).bind fun a => (evalNode T env arg).bind fun b =>
+        if refl then pyBin op b a else pyBin op a b := by
+  unfold vhandlerCore
+  by_cases hc : (zi && !arg.isLazy) = true
+  · rw [if_pos hc]
+    simp only [Bool.and_eq_true, Bool.not_eq_true'] at hc
+    obtain ⟨hz1, hnl⟩ := hc
+    have hz : vecZeroIdentity op refl = true := by rw [← hzi]; exact hz1
+    cases arg with
+    | const v =>
+      simp only []
+      by_cases hv : isZeroOperand v = true
+      · rw [if_pos hv]
+        cases ha : evalNode T env self with
+        | none => simp
+        | some a =>
+          obtain ⟨x, y, z, rfl⟩ := (isVec_iff a).mp (hvec a ha)
+          simp [evalNode, zero_identity_val op refl x y z v hz hv]
+      · rw [if_neg hv]
+        exact eval_vop_of_vec T env op refl self _ hvec
+    | fail => simp [evalNode, bind_none_right]
+    | rawt k xs => simp [Node.isRaw] at hraw
+    | _ => simp [Node.isLazy, Node.isDist] at hnl
+  · rw [if_neg hc]
+    exact eval_vop_of_vec T env op refl self arg hvec
+
+theorem vhandler_eval (T : Tables) (hT : T.WF = true) (env : Env) (op : BinOp) (refl : Bool) (self arg : Node)
+    (hvec : ∀ a, evalNode T env self = some a → a.isVec = true) :
+    evalNode T env (vhandler T op refl self arg) =
+      (evalNode T env self).bind fun a => (evalNode T env arg).bind fun b =>
+        if refl then pyBin op b a else pyBin op a b := by
+  unfold vhandler
+  cases hl : vecOpsLookup T op refl with
+  | none => exact handler_eval T hT env op refl self arg
+  | some zi =>
+    obtain ⟨hzi, _⟩ := vecOpsLookup_spec T hT op refl zi hl
+    simp only []
+    rw [vhandlerCore_eval T env op refl zi self (toDist arg) hzi (toDist_not_raw arg) hvec, evalNode_toDist]
+
+theorem vecOpsLookup_none (T : Tables) (hT : T.WF = true) (op : BinOp) (refl : Bool) (h : vecHas op refl = false) :
+    vecOpsLookup T op refl = none := by
+  cases hl : vecOpsLookup T op refl with
+  | none => rfl
+  | some zi =>
+    have := (vecOpsLookup_spec T hT op refl zi hl).2
+    rw [h] at this; simp at this
+
+theorem vecApply_eval (T : Tables) (hT : T.WF = true) (env : Env) (op : BinOp) (refl : Bool) (self arg : Node)
+    (hh : vecHas op refl = true) (hraw : arg.isRaw = false)
+    (hvec : ∀ a, evalNode T env self = some a → a.isVec = true)
+    (hok : arg.isLazy = true → self.isConst = true → ∀ b, evalNode T env arg = some b → shortZero b = false) :
+    evalNode T env (vecApply T op refl self arg) =
+      (evalNode T env self).bind fun a => (evalNode T env arg).bind fun b =>
+        if refl then pyBin op b a else pyBin op a b := by
+  unfold vecApply
+  by_cases hlazy : arg.isLazy = true
+  · rw [if_pos hlazy]
+    cases self with
+    | const c =>
+      cases c with
+      | vec x y z =>
+        simp only [evalNode, Option.bind_some]
+        cases hb : evalNode T env arg with
+        | none => simp
+        | some b =>
+          have hs : shortZero b = false := hok hlazy rfl b hb
+          cases refl
+          · simp [pyBin_vec_left, vecCall_eq_method op false x y z b hs]
+          · simp [pyBin_vec_right, hh, vecCall_eq_method op true x y z b hs]
+      | num q => exact eval_vop_of_vec T env op refl _ arg hvec
+      | none => exact eval_vop_of_vec T env op refl _ arg hvec
+      | str s => exact eval_vop_of_vec T env op refl _ arg hvec
+      | seq k xs => exact eval_vop_of_vec T env op refl _ arg hvec
+    | _ => exact eval_vop_of_vec T env op refl _ arg hvec
+  · rw [if_neg hlazy]
+    cases arg with
+    | const v =>
+      simp only []
+      by_cases hz : (vecOpsLookup T op refl == some true && isZeroOperand v) = true
+      · rw [if_pos hz]
+        simp only [Bool.and_eq_true, beq_iff_eq] at hz
+        obtain ⟨hzi, _⟩ := vecOpsLookup_spec T hT op refl true hz.1
+        cases ha : evalNode T env self with
+        | none => simp
+        | some a =>
+          obtain ⟨x, y, z, rfl⟩ := (isVec_iff a).mp (hvec a ha)
+          simp [evalNode, zero_identity_val op refl x y z v hzi.symm hz.2]
+      · rw [if_neg hz]
+        exact eval_vop_of_vec T env op refl self _ hvec
+    | fail => simp [evalNode, bind_none_right]
+    | rawt k xs => simp [Node.isRaw] at hraw
+    | _ => simp [Node.isLazy, Node.isDist] at hlazy
+
+theorem vecHas_refl_of_not (op : BinOp) (h : vecHas op false = false) : vecHas op true = false := by
+  cases op <;> simp [vecHas] at h ⊢
+
+theorem vecHelperCore_eval (T : Tables) (hT : T.WF = true) (env : Env) (op : BinOp) (refl : Bool) (self arg : Node)
+    (hvec : ∀ a, evalNode T env self = some a → a.isVec = true)
+    (hok : vecCoreOK T env op refl self arg = true) :
+    evalNode T env (vecHelperCore T op refl self arg) =
+      (evalNode T env self).bind fun a => (evalNode T env arg).bind fun b =>
+        if refl then pyBin op b a else pyBin op a b := by
+  unfold vecHelperCore
+  by_cases hh : vecHas op refl = true
+  · -- Vector defines the method
+    simp only [hh, Bool.not_true, Bool.false_eq_true, if_false]
+    rw [vecApply_eval T hT env op refl self (toDist arg) hh (toDist_not_raw arg) hvec, evalNode_toDist]
+    intro hlazy hconst b hb
+    unfold vecCoreOK at hok
+    simp only [hh, hlazy, Bool.and_self, if_true] at hok
+    cases self with
+    | const c =>
+      simp only [valsOK, evalNode] at hok
+      rw [evalNode_toDist] at hb
+      simp only [hb, Bool.not_eq_true'] at hok
+      exact hok
+    | _ => simp [Node.isConst] at hconst
+  · -- Vector does not define the method
+    simp only [Bool.not_eq_true] at hh
+    simp only [hh, Bool.not_false, if_true]
+    by_cases hd : (arg.isDist && !refl) = true
+    · simp only [hd, if_true]
+      simp only [Bool.and_eq_true, Bool.not_eq_true'] at hd
+      obtain ⟨_, hr⟩ := hd
+      subst hr
+      have hl : vecOpsLookup T op true = none := vecOpsLookup_none T hT op true (vecHas_refl_of_not op hh)
+      have : (if arg.isVecDist = true then vhandler T op true arg self else handler T op true arg self) =
+          handler T op true arg self := by
+        split
+        · unfold vhandler; rw [hl]
+        · rfl
+      rw [this, handler_eval T hT env op true arg self]
+      simp only [if_true, Bool.false_eq_true, if_false]
+      exact bind_comm _ _ _
+    · simp only [hd, Bool.false_eq_true, if_false, evalNode]
+      cases ha : evalNode T env self with
+      | none => simp
+      | some a =>
+        obtain ⟨x, y, z, rfl⟩ := (isVec_iff a).mp (hvec a ha)
+        cases hb : evalNode T env arg with
+        | none => simp
+        | some b =>
+          cases refl
+          · simp [pyBin_vec_left, vecCall_no_method op false x y z b hh]
+          · simp [pyBin_vec_right, hh]
+
+theorem vecHelper_eval (T : Tables) (hT : T.WF = true) (env : Env) (op : BinOp) (refl : Bool) (self arg : Node)
+    (hvec : ∀ a, evalNode T env self = some a → a.isVec = true)
+    (hok : vecHelperOK T env op refl self arg = true) :
+    evalNode T env (vecHelper T op refl self arg) =
+      (evalNode T env self).bind fun a => (evalNode T env arg).bind fun b =>
+        if refl then pyBin op b a else pyBin op a b := by
+  unfold vecHelper
+  unfold vecHelperOK at hok
+  rw [vecHelperCore_eval T hT env op _ self arg hvec hok]
+  by_cases hm : op = .mul
+  · subst hm
+    simp only [beq_self_eq_true, if_true, Bool.false_eq_true, if_false]
+    cases ha : evalNode T env self with
+    | none => simp
+    | some a =>
+      obtain ⟨x, y, z, rfl⟩ := (isVec_iff a).mp (hvec a ha)
+      cases hb : evalNode T env arg with
+      | none => simp
+      | some b => cases refl <;> simp [pyBin_mul_vec_comm]
+  · have : (op == BinOp.mul) = false := by simpa using hm
+    simp [this]
+
+/-! ### an invariant of the forests `build` produces: a VectorOperatorDistribution sits on a vector-typed object -/
+mutual
+  /-- every VectorOperatorDistribution reachable without entering another distribution (i.e. through raw
+      tuples, TupleDistributions and Vectors with random coordinates, whose elements later operators can pick out)
+      was built on an object whose static type is Vector -/
+  def vecWF : Node → Bool
+    | .vop _ _ obj _ => obj.vty == .vector
+    | .rawt _ xs => vecWFs xs
+    | .tupd _ xs => vecWFs xs
+    | .vecOf x y z => vecWF x && vecWF y && vecWF z
+    | _ => true
+  def vecWFs : List Node → Bool
+    | [] => true
+    | x :: rest => vecWF x && vecWFs rest
+end
+
+theorem vecDist_vty (n : Node) (hw : vecWF n = true) (hv : n.isVecDist = true) : n.vty = .vector := by
+  cases n <;> simp [Node.isVecDist] at hv
+  · simp only [vecWF, beq_iff_eq] at hw
+    simp [Node.vty, hw]
+  · simp [Node.vty]
+
+theorem vecTyped_hvec (T : Tables) (env : Env) (n : Node) (h : n.vty = .vector) :
+    ∀ a, evalNode T env n = some a → a.isVec = true :=
+  fun a ha => (vty_sound T env n a ha).2 h
+
+theorem vecDist_hvec (T : Tables) (env : Env) (n : Node) (hw : vecWF n = true) (hv : n.isVecDist = true) :
+    ∀ a, evalNode T env n = some a → a.isVec = true :=
+  vecTyped_hvec T env n (vecDist_vty n hw hv)
+
+/-! ### binary operators at compile time -/
+
+theorem pyBin_seq_mul_num (k : Bool) (vs : List Val) (n : Rat) :
+    pyBin .mul (.seq k vs) (.num n) = (asIndex n).map fun i => .seq k (repeatList i vs) := by
+  simp [pyBin, seqBin]
+
+theorem pyBin_num_mul_seq (k : Bool) (vs : List Val) (n : Rat) :
+    pyBin .mul (.num n) (.seq k vs) = (asIndex n).map fun i => .seq k (repeatList i vs) := by
+  simp [pyBin, seqBin]
+
+theorem pyBin_seq_add_seq (k k' : Bool) (vs ws : List Val) :
+    pyBin .add (.seq k vs) (.seq k' ws) = if k = k' then some (.seq k (vs ++ ws)) else none := by
+  simp [pyBin, seqBin]
+
+/-- repetition of a raw tuple whose elements evaluate -/
+theorem rawRepeat_eval (T : Tables) (env : Env) (k : Bool) (xs : List Node) (n : Rat) (vs : List Val)
+    (hvs : evalNodes T env xs = some vs) :
+    evalNode T env (rawRepeat k xs n) = (asIndex n).map fun i => .seq k (repeatList i vs) := by
+  unfold rawRepeat
+  cases hi : asIndex n with
+  | none => simp [evalNode]
+  | some i =>
+    by_cases hle : i ≤ 0
+    · simp [evalNode, hle, repeatList_nonpos i vs hle]
+    · simp only [hle, if_false, evalNode, Option.map_some]
+      unfold repeatList
+      rw [evalNodes_replicate T env xs vs hvs]
+      rfl
+
+theorem rawMulOK_some (T : Tables) (env : Env) (k : Bool) (xs : List Node)
+    (h : rawMulOK T env .mul (.rawt k xs) = true) : ∃ vs, evalNodes T env xs = some vs := by
+  simp only [rawMulOK, bne_self_eq_false, Bool.false_or, evalsSome, evalNode, Option.isSome_map] at h
+  exact Option.isSome_iff_exists.mp h
+
+theorem constLeft_eval (T : Tables) (hT : T.WF = true) (env : Env) (op : BinOp) (c : Val) (r : Node)
+    (hcv : c.isVec = false) (hrc : r.isConst = false) (hrf : r.isFail = false) (hwr : vecWF r = true)
+    (hok : constLeftOK T env op r = true) :
+    evalNode T env (constLeft T op c (.const c) r) = (evalNode T env r).bind fun b => pyBin op c b := by
+  unfold constLeft
+  unfold constLeftOK at hok
+  by_cases hv : r.isVecDist = true
+  · simp only [hv, if_true]
+    rw [vhandler_eval T hT env op true r (.const c) (vecDist_hvec T env r hwr hv)]
+    simp [evalNode]
+  · simp only [hv, Bool.false_eq_true, if_false] at hok ⊢
+    by_cases hd : r.isDist = true
+    · simp only [hd, if_true]
+      rw [handler_eval T hT env op true r (.const c)]
+      simp [evalNode]
+    · simp only [hd, Bool.false_eq_true, if_false] at hok ⊢
+      cases r with
+      | vecOf x y z =>
+        simp only []
+        rw [vecHelper_eval T hT env op true (.vecOf x y z) (.const c) (vecTyped_hvec T env _ rfl)]
+        · simp [evalNode]
+        · simp [vecHelperOK, vecCoreOK]
+      | rawt k ys =>
+        simp only [] at hok ⊢
+        cases c with
+        | seq k' xs =>
+          simp only []
+          by_cases hk : (op == .add && k == k') = true
+          · rw [if_pos hk]
+            simp only [Bool.and_eq_true, beq_iff_eq] at hk
+            obtain ⟨rfl, rfl⟩ := hk
+            simp only [evalNode, evalNodes_append, evalNodes_consts, Option.bind_some]
+            cases evalNodes T env ys <;> simp [pyBin_seq_add_seq]
+          · rw [if_neg hk]
+            simp only [evalNode]
+            cases evalNodes T env ys with
+            | none => simp
+            | some ws =>
+              simp only [Option.map_some, Option.bind_some]
+              cases op <;> simp [pyBin, seqBin] at hk ⊢
+              intro h; exact absurd h.symm hk
+        | num n =>
+          simp only []
+          by_cases hm : (op == .mul) = true
+          · rw [if_pos hm]
+            have : op = .mul := by simpa using hm
+            subst this
+            obtain ⟨vs, hvs⟩ := rawMulOK_some T env k ys hok
+            rw [rawRepeat_eval T env k ys n vs hvs]
+            simp [evalNode, hvs, pyBin_num_mul_seq]
+          · rw [if_neg hm]
+            simp only [evalNode]
+            cases evalNodes T env ys with
+            | none => simp
+            | some ws => cases op <;> simp [pyBin, seqBin] at hm ⊢
+        | none => simp only [evalNode]; cases evalNodes T env ys <;> simp [pyBin, seqBin]
+        | str s => simp only [evalNode]; cases evalNodes T env ys <;> cases op <;> simp [pyBin, seqBin]
+        | vec x y z => simp [Val.isVec] at hcv
+      | const d => simp [Node.isConst] at hrc
+      | fail => simp [Node.isFail] at hrf
+      | _ => simp [Node.isDist] at hd
+
+theorem rawLeft_eval (T : Tables) (hT : T.WF = true) (env : Env) (op : BinOp) (k : Bool) (xs : List Node) (r : Node)
+    (hrf : r.isFail = false) (hwr : vecWF r = true)
+    (hmul : rawMulOK T env op (.rawt k xs) = true)
+    (hvok : rawVecOK T env op (.rawt k xs) r = true) :
+    evalNode T env (rawLeft T op k xs (.rawt k xs) r) =
+      (evalNode T env (.rawt k xs)).bind fun a => (evalNode T env r).bind fun b => pyBin op a b := by
+  unfold rawLeft
+  by_cases hrv : r.isVecDist = true
+  · rw [if_pos hrv, vhandler_eval T hT env op true r _ (vecDist_hvec T env r hwr hrv)]
+    simp only [if_true]
+    exact bind_comm _ _ _
+  · rw [if_neg hrv]
+    by_cases hrd : r.isDist = true
+    · rw [if_pos hrd, handler_eval T hT env op true r _]
+      simp only [if_true]
+      exact bind_comm _ _ _
+    · rw [if_neg hrd]
+      cases r with
+      | vecOf x y z =>
+        simp only []
+        rw [vecHelper_eval T hT env op true (.vecOf x y z) _ (vecTyped_hvec T env _ rfl)]
+        · simp only [if_true]
+          exact bind_comm _ _ _
+        · simp [vecHelperOK, vecCoreOK]
+      | const d =>
+        cases d with
+        | vec x y z =>
+          simp only [rawVecOK] at hvok
+          simp only []
+          rw [vecHelper_eval T hT env op true (.const (.vec x y z)) _ (vecTyped_hvec T env _ rfl) hvok]
+          simp only [if_true]
+          exact bind_comm _ _ _
+        | num n =>
+          simp only []
+          by_cases hm : (op == .mul) = true
+          · rw [if_pos hm]
+            have : op = .mul := by simpa using hm
+            subst this
+            obtain ⟨vs, hvs⟩ := rawMulOK_some T env k xs hmul
+            rw [rawRepeat_eval T env k xs n vs hvs]
+            simp [evalNode, hvs, pyBin_seq_mul_num]
+          · rw [if_neg hm]
+            simp only [evalNode]
+            cases evalNodes T env xs with
+            | none => simp
+            | some ws => cases op <;> simp [pyBin, seqBin] at hm ⊢
+        | seq k' ys =>
+          simp only []
+          by_cases hk : (op == .add && k == k') = true
+          · rw [if_pos hk]
+            simp only [Bool.and_eq_true, beq_iff_eq] at hk
+            obtain ⟨rfl, rfl⟩ := hk
+            simp only [evalNode, evalNodes_append, evalNodes_consts, Option.bind_some]
+            cases evalNodes T env xs <;> simp [pyBin_seq_add_seq]
+          · rw [if_neg hk]
+            simp only [evalNode]
+            cases evalNodes T env xs with
+            | none => simp
+            | some ws =>
+              simp only [Option.map_some, Option.bind_some]
+              cases op <;> simp [pyBin, seqBin] at hk ⊢
+              exact hk
+        | none => simp only [evalNode]; cases evalNodes T env xs <;> simp [pyBin, seqBin]
+        | str s => simp only [evalNode]; cases evalNodes T env xs <;> cases op <;> simp [pyBin, seqBin]
+      | rawt k' ys =>
+        simp only []
+        by_cases hk : (op == .add && k == k') = true
+        · rw [if_pos hk]
+          simp only [Bool.and_eq_true, beq_iff_eq] at hk
+          obtain ⟨rfl, rfl⟩ := hk
+          simp only [evalNode, evalNodes_append]
+          cases evalNodes T env xs <;> simp
+          cases evalNodes T env ys <;> simp [pyBin_seq_add_seq]
+        · rw [if_neg hk]
+          simp only [evalNode]
+          cases evalNodes T env xs with
+          | none => simp
+          | some vs =>
+            cases evalNodes T env ys with
+            | none => simp
+            | some ws =>
+              simp only [Option.map_some, Option.bind_some]
+              cases op <;> simp [pyBin, seqBin] at hk ⊢
+              exact hk
+      | fail => simp [Node.isFail] at hrf
+      | _ => simp [Node.isDist] at hrd
+
+theorem binGen_eval (T : Tables) (hT : T.WF = true) (env : Env) (op : BinOp) (l r : Node)
+    (hlf : l.isFail = false) (hrf : r.isFail = false) (hcc : (l.isConst && r.isConst) = false)
+    (hwl : vecWF l = true) (hwr : vecWF r = true)
+    (hok : binGenOK T env op l r = true) :
+    evalNode T env (binGen T op l r) =
+      (evalNode T env l).bind fun a => (evalNode T env r).bind fun b => pyBin op a b := by
+  unfold binGen
+  unfold binGenOK at hok
+  by_cases hv : l.isVecDist = true
+  · simp only [hv, if_true]
+    rw [vhandler_eval T hT env op false l r (vecDist_hvec T env l hwl hv)]
+    simp
+  · simp only [hv, Bool.false_eq_true, if_false] at hok ⊢
+    by_cases hd : l.isDist = true
+    · simp only [hd, if_true]
+      rw [handler_eval T hT env op false l r]
+      simp
+    · simp only [hd, Bool.false_eq_true, if_false] at hok ⊢
+      cases l with
+      | vecOf x y z =>
+        simp only []
+        rw [vecHelper_eval T hT env op false (.vecOf x y z) r (vecTyped_hvec T env _ rfl)]
+        · simp
+        · simp [vecHelperOK, vecCoreOK]
+      | const c =>
+        have hrc : r.isConst = false := by simpa [Node.isConst] using hcc
+        cases c with
+        | vec x y z =>
+          simp only [] at hok ⊢
+          rw [vecHelper_eval T hT env op false (.const (.vec x y z)) r (vecTyped_hvec T env _ rfl) hok]
+          simp
+        | str s =>
+          simp only [Bool.and_eq_true, bne_iff_ne, ne_eq] at hok ⊢
+          obtain ⟨hm, hok⟩ := hok
+          have : (op == BinOp.mod) = false := by simpa using hm
+          simp only [this, Bool.false_eq_true, if_false]
+          rw [constLeft_eval T hT env op (.str s) r rfl hrc hrf hwr hok]
+          simp [evalNode]
+        | num q =>
+          simp only [] at hok ⊢
+          rw [constLeft_eval T hT env op (.num q) r rfl hrc hrf hwr hok]
+          simp [evalNode]
+        | none =>
+          simp only [] at hok ⊢
+          rw [constLeft_eval T hT env op .none r rfl hrc hrf hwr hok]
+          simp [evalNode]
+        | seq k xs =>
+          simp only [] at hok ⊢
+          rw [constLeft_eval T hT env op (.seq k xs) r rfl hrc hrf hwr hok]
+          simp [evalNode]
+      | rawt k xs =>
+        simp only [Bool.and_eq_true] at hok
+        exact rawLeft_eval T hT env op k xs r hrf hwr hok.1 hok.2
+      | fail => simp [Node.isFail] at hlf
+      | _ => simp [Node.isDist] at hd
+
+theorem binBuild_eval (T : Tables) (hT : T.WF = true) (env : Env) (op : BinOp) (l r : Node)
+    (hwl : vecWF l = true) (hwr : vecWF r = true)
+    (hok : binOK T env op l r = true) :
+    evalNode T env (binBuild T op l r) =
+      (evalNode T env l).bind fun a => (evalNode T env r).bind fun b => pyBin op a b := by
+  unfold binBuild
+  split
+  · simp [evalNode]
+  · simp [evalNode, bind_none_right]
+  · simp [evalNode, eval_optNode]
+  · rename_i h1 h2 h3
+    have hlf : l.isFail = false := by cases l <;> simp [Node.isFail]; exact h1 rfl
+    have hrf : r.isFail = false := by cases r <;> simp [Node.isFail]; exact h2 rfl
+    have hcc : (l.isConst && r.isConst) = false := by
+      cases l <;> cases r <;> simp [Node.isConst]
+      exact h3 _ _ rfl rfl
+    have hok' : binGenOK T env op l r = true := by
+      unfold binOK at hok
+      split at hok
+      · simp [Node.isFail] at hlf
+      · simp [Node.isFail] at hrf
+      · simp [Node.isConst] at hcc
+      · exact hok
+    exact binGen_eval T hT env op l r hlf hrf hcc hwl hwr hok'
+
+/-! ### `build` only produces forests satisfying `vecWF` -/
+
+theorem vecWF_optNode (o : Option Val) : vecWF (optNode o) = true := by
+  cases o <;> simp [optNode, vecWF]
+
+mutual
+  theorem vecWF_toDist : ∀ n : Node, vecWF (toDist n) = vecWF n
+    | .rawt k xs => by simp [toDist, vecWF, vecWFs_toDistList xs]
+    | .const _ | .leaf .. | .opd2 .. | .opd1 .. | .geti .. | .lend .. | .attrd .. | .vop .. | .vmeth .. | .vecOf ..
+    | .tupd .. | .fnd .. | .fail => by simp [toDist]
+  theorem vecWFs_toDistList : ∀ ns : List Node, vecWFs (toDistList ns) = vecWFs ns
+    | [] => by simp [toDistList]
+    | n :: rest => by simp [toDistList, vecWFs, vecWF_toDist n, vecWFs_toDistList rest]
+end
+
+theorem vecWFs_append : ∀ xs ys : List Node, vecWFs (xs ++ ys) = (vecWFs xs && vecWFs ys)
+  | [], ys => by simp [vecWFs]
+  | x :: rest, ys => by simp [vecWFs, vecWFs_append rest ys, Bool.and_assoc]
+
+theorem vecWFs_consts : ∀ vs : List Val, vecWFs (vs.map .const) = true
+  | [] => rfl
+  | v :: rest => by simp [vecWFs, vecWF, vecWFs_consts rest]
+
+theorem vecWFs_replicate (xs : List Node) (h : vecWFs xs = true) :
+    ∀ n : Nat, vecWFs (List.replicate n xs).flatten = true
+  | 0 => by simp [vecWFs]
+  | n + 1 => by simp [List.replicate_succ, vecWFs_append, h, vecWFs_replicate xs h n]
+
+theorem vecWFs_getElem : ∀ (xs : List Node) (k : Nat), vecWFs xs = true → vecWF ((xs[k]?).getD .fail) = true
+  | [], k, _ => by simp [vecWF]
+  | x :: rest, k, h => by
+    simp only [vecWFs, Bool.and_eq_true] at h
+    cases k with
+    | zero => simpa using h.1
+    | succ k => simpa using vecWFs_getElem rest k h.2
+
+theorem vecWFs_listIndex (xs : List Node) (i : Int) (h : vecWFs xs = true) :
+    vecWF ((listIndex xs i).getD .fail) = true := by
+  unfold listIndex
+  simp only
+  split <;> (split <;> first | exact vecWFs_getElem xs _ h | simp [vecWF])
+
+theorem vecWF_handler (T : Tables) (op : BinOp) (refl : Bool) (self arg : Node) (hs : vecWF self = true) :
+    vecWF (handler T op refl self arg) = true := by
+  unfold handler
+  split
+  · exact hs
+  · simp [vecWF]
+
+theorem vecWF_vhandler (T : Tables) (op : BinOp) (refl : Bool) (self arg : Node) (hs : vecWF self = true)
+    (hty : self.vty = .vector) : vecWF (vhandler T op refl self arg) = true := by
+  unfold vhandler
+  cases vecOpsLookup T op refl with
+  | none => exact vecWF_handler T op refl self arg hs
+  | some zi =>
+    simp only [vhandlerCore]
+    split
+    · split
+      · split
+        · exact hs
+        · simp [vecWF, hty]
+      · simp [vecWF]
+    · simp [vecWF, hty]
+
+theorem vecWF_vecApply (T : Tables) (op : BinOp) (refl : Bool) (self arg : Node) (hs : vecWF self = true)
+    (hty : self.vty = .vector) : vecWF (vecApply T op refl self arg) = true := by
+  unfold vecApply
+  split
+  · split
+    · simp [vecWF]
+    · simp [vecWF, hty]
+  · split
+    · split
+      · exact hs
+      · simp [vecWF, hty]
+    · simp [vecWF]
+
+theorem vecWF_vecHelperCore (T : Tables) (op : BinOp) (refl : Bool) (self arg : Node) (hs : vecWF self = true)
+    (hty : self.vty = .vector) (ha : vecWF arg = true) : vecWF (vecHelperCore T op refl self arg) = true := by
+  unfold vecHelperCore
+  by_cases h1 : (!vecHas op refl) = true
+  · rw [if_pos h1]
+    by_cases h2 : (arg.isDist && !refl) = true
+    · rw [if_pos h2]
+      by_cases hv : arg.isVecDist = true
+      · rw [if_pos hv]
+        exact vecWF_vhandler T op true arg self ha (vecDist_vty arg ha hv)
+      · rw [if_neg hv]
+        exact vecWF_handler T op true arg self ha
+    · rw [if_neg h2]; simp [vecWF]
+  · rw [if_neg h1]
+    exact vecWF_vecApply T op refl self _ hs hty
+
+theorem vecWF_vecHelper (T : Tables) (op : BinOp) (refl : Bool) (self arg : Node) (hs : vecWF self = true)
+    (hty : self.vty = .vector) (ha : vecWF arg = true) : vecWF (vecHelper T op refl self arg) = true := by
+  unfold vecHelper
+  exact vecWF_vecHelperCore T op _ self arg hs hty ha
+
+theorem vecWF_rawRepeat (k : Bool) (xs : List Node) (n : Rat) (h : vecWFs xs = true) :
+    vecWF (rawRepeat k xs n) = true := by
+  unfold rawRepeat
+  split
+  · split
+    · simp [vecWF]
+    · simp only [vecWF, repeatList]; exact vecWFs_replicate xs h _
+  · simp [vecWF]
+
+theorem vecWF_constLeft (T : Tables) (op : BinOp) (c : Val) (r : Node) (hr : vecWF r = true) :
+    vecWF (constLeft T op c (.const c) r) = true := by
+  unfold constLeft
+  by_cases hv : r.isVecDist = true
+  · rw [if_pos hv]
+    exact vecWF_vhandler T op true r _ hr (vecDist_vty r hr hv)
+  · rw [if_neg hv]
+    by_cases hd : r.isDist = true
+    · rw [if_pos hd]
+      exact vecWF_handler T op true r _ hr
+    · rw [if_neg hd]
+      cases r with
+      | vecOf x y z => exact vecWF_vecHelper T op true _ _ hr rfl (by simp [vecWF])
+      | rawt k ys =>
+        simp only [vecWF] at hr
+        cases c with
+        | seq k' xs =>
+          simp only []
+          split
+          · simp [vecWF, vecWFs_append, vecWFs_consts, hr]
+          · simp [vecWF]
+        | num n =>
+          simp only []
+          split
+          · exact vecWF_rawRepeat k ys n hr
+          · simp [vecWF]
+        | none => simp [vecWF]
+        | str s => simp [vecWF]
+        | vec x y z => simp [vecWF]
+      | _ => simp [vecWF]
+
+theorem vecWF_rawLeft (T : Tables) (op : BinOp) (k : Bool) (xs : List Node) (r : Node)
+    (hl : vecWFs xs = true) (hr : vecWF r = true) :
+    vecWF (rawLeft T op k xs (.rawt k xs) r) = true := by
+  have hl' : vecWF (.rawt k xs) = true := by simpa [vecWF] using hl
+  unfold rawLeft
+  by_cases hv : r.isVecDist = true
+  · rw [if_pos hv]
+    exact vecWF_vhandler T op true r _ hr (vecDist_vty r hr hv)
+  · rw [if_neg hv]
+    by_cases hd : r.isDist = true
+    · rw [if_pos hd]
+      exact vecWF_handler T op true r _ hr
+    · rw [if_neg hd]
+      cases r with
+      | vecOf x y z => exact vecWF_vecHelper T op true _ _ hr rfl hl'
+      | rawt k' ys =>
+        simp only [vecWF] at hr
+        simp only []
+        split
+        · simp [vecWF, vecWFs_append, hl, hr]
+        · simp [vecWF]
+      | const d =>
+        cases d with
+        | vec x y z => exact vecWF_vecHelper T op true _ _ hr rfl hl'
+        | seq k' ys =>
+          simp only []
+          split
+          · simp [vecWF, vecWFs_append, vecWFs_consts, hl]
+          · simp [vecWF]
+        | num n =>
+          simp only []
+          split
+          · exact vecWF_rawRepeat k xs n hl
+          · simp [vecWF]
+        | none => simp [vecWF]
+        | str s => simp [vecWF]
+      | _ => simp [vecWF]
+
+theorem vecWF_binGen (T : Tables) (op : BinOp) (l r : Node) (hl : vecWF l = true) (hr : vecWF r = true) :
+    vecWF (binGen T op l r) = true := by
+  unfold binGen
+  by_cases hv : l.isVecDist = true
+  · rw [if_pos hv]
+    exact vecWF_vhandler T op false l r hl (vecDist_vty l hl hv)
+  · rw [if_neg hv]
+    by_cases hd : l.isDist = true
+    · rw [if_pos hd]
+      exact vecWF_handler T op false l r hl
+    · rw [if_neg hd]
+      cases l with
+      | vecOf x y z => exact vecWF_vecHelper T op false _ r hl rfl hr
+      | const c =>
+        cases c with
+        | vec x y z => exact vecWF_vecHelper T op false _ r hl rfl hr
+        | str s =>
+          simp only []
+          split
+          · simp [vecWF]
+          · exact vecWF_constLeft T op _ r hr
+        | num q => exact vecWF_constLeft T op _ r hr
+        | none => exact vecWF_constLeft T op _ r hr
+        | seq k xs => exact vecWF_constLeft T op _ r hr
+      | rawt k xs =>
+        simp only [vecWF] at hl
+        exact vecWF_rawLeft T op k xs r hl hr
+      | _ => simp [vecWF]
+
+theorem vecWF_binBuild (T : Tables) (op : BinOp) (l r : Node) (hl : vecWF l = true) (hr : vecWF r = true) :
+    vecWF (binBuild T op l r) = true := by
+  unfold binBuild
+  split
+  · simp [vecWF]
+  · simp [vecWF]
+  · exact vecWF_optNode _
+  · exact vecWF_binGen T op l r hl hr
+
+theorem vecWF_unBuild (op : UnOp) (n : Node) : vecWF (unBuild op n) = true := by
+  unfold unBuild
+  split
+  · simp [vecWF]
+  · exact vecWF_optNode _
+  · split <;> simp [vecWF]
+
+theorem vecWF_getitemBuild (obj idx : Node) (ho : vecWF obj = true) : vecWF (getitemBuild obj idx) = true := by
+  unfold getitemBuild
+  split
+  · simp [vecWF]
+  · simp [vecWF]
+  · exact vecWF_optNode _
+  · by_cases hd : obj.isDist = true
+    · rw [if_pos hd]; simp [vecWF]
+    · rw [if_neg hd]
+      cases obj with
+      | rawt k xs =>
+        simp only [vecWF] at ho
+        simp only []
+        split
+        · exact vecWFs_listIndex _ _ ho
+        · simp [vecWF]
+      | vecOf x y z =>
+        have : vecWFs [x, y, z] = true := by simpa [vecWF, vecWFs, Bool.and_assoc] using ho
+        simp only []
+        split
+        · exact vecWFs_listIndex _ _ this
+        · simp [vecWF]
+      | _ => simp [vecWF]
+
+theorem vecWF_lenBuild (n : Node) : vecWF (lenBuild n) = true := by
+  unfold lenBuild
+  split
+  · simp [vecWF]
+  · exact vecWF_optNode _
+  · simp [vecWF]
+  · simp [vecWF]
+  · split <;> simp [vecWF]
+
+theorem vecWF_attrBuild (name : String) (n : Node) (h : vecWF n = true) : vecWF (attrBuild name n) = true := by
+  cases n with
+  | fail => simp [attrBuild, vecWF]
+  | const v => simp only [attrBuild]; exact vecWF_optNode _
+  | vecOf x y z =>
+    simp only [vecWF, Bool.and_eq_true] at h
+    simp only [attrBuild]
+    split
+    · exact h.1.1
+    · split
+      · exact h.1.2
+      · split
+        · exact h.2
+        · simp [vecWF]
+  | _ => simp only [attrBuild]; split <;> simp [vecWF]
+
+theorem vecWF_seqBuild (k : Bool) (ns : List Node) (h : vecWFs ns = true) : vecWF (seqBuild k ns) = true := by
+  unfold seqBuild
+  split
+  · simp [vecWF]
+  · split
+    · simp [vecWF]
+    · simpa [vecWF] using h
+
+theorem vecWF_vecBuild (x y z : Node) (hx : vecWF x = true) (hy : vecWF y = true) (hz : vecWF z = true) :
+    vecWF (vecBuild x y z) = true := by
+  unfold vecBuild
+  split
+  · simp [vecWF]
+  · simp [vecWF]
+  · simp [vecWF]
+  · exact vecWF_optNode _
+  · simp [vecWF, hx, hy, hz]
+
+theorem vecWF_callBuild (f : Fn) (args : Option (List Node × List Bool)) : vecWF (callBuild f args) = true := by
+  unfold callBuild
+  split
+  · simp [vecWF]
+  · split
+    · simp [vecWF]
+    · simp only []
+      split
+      · simp [vecWF]
+      · split
+        · exact vecWF_optNode _
+        · simp [vecWF]
+
+mutual
+  /-- every forest `build` produces satisfies `vecWF` -/
+  theorem build_vecWF (T : Tables) : ∀ e : Expr, vecWF (build T e) = true
+    | .const v => by simp [build, vecWF]
+    | .leaf i ty => by simp [build, vecWF]
+    | .bin op l r => by
+      simp only [build]
+      exact vecWF_binBuild T op _ _ (build_vecWF T l) (build_vecWF T r)
+    | .un op e => by simp only [build]; exact vecWF_unBuild op _
+    | .getitem e i => by simp only [build]; exact vecWF_getitemBuild _ _ (build_vecWF T e)
+    | .len e => by simp only [build]; exact vecWF_lenBuild _
+    | .attr e name => by simp only [build]; exact vecWF_attrBuild name _ (build_vecWF T e)
+    | .mkseq k es => by simp only [build]; exact vecWF_seqBuild k _ (buildList_vecWFs T es)
+    | .mkvec x y z => by
+      simp only [build]
+      exact vecWF_vecBuild _ _ _ (build_vecWF T x) (build_vecWF T y) (build_vecWF T z)
+    | .call f args => by simp only [build]; exact vecWF_callBuild f _
+  theorem buildList_vecWFs (T : Tables) : ∀ es : List Expr, vecWFs (buildList T es) = true
+    | [] => by simp [buildList, vecWFs]
+    | e :: rest => by simp [buildList, vecWFs, build_vecWF T e, buildList_vecWFs T rest]
+end
 
 end Scenic.Expr
